@@ -9,7 +9,7 @@ from lib import sfx, strip_expr, strip_refs, show, expr_calls, callers_of, bool_
 
 # invariants established by other property modules: (module, key prefixes whose violation breaks it)
 INV_DEPENDS = {
-    "INV-LOC": ("C11", ("C11:KILL:", "C11:ESTABLISH:", "C11:WRITER:", "C11:CALLER:", "C11:EDIT")),
+    "INV-LOC": ("C11", ("C11:KILL:", "C11:ESTABLISH:", "C11:WRITER:", "C11:CALLER:")),
     "INV-SYNC": ("C04", ("C04:PAIR:", "C04:WRITER:", "C04:CALLER:")),
     "INV-DIM": ("C16", ("C16:DIM:", "C16:OVF:")),
     "INV-RNG": ("C18", ("C18:RANGE:", "C18:STEP:", "C18:OVF:", "C18:SEEDWRITER:", "C18:CONST:")),
